@@ -87,11 +87,11 @@ theorem C20_embedded_status (code : Nat) (msg : Bytes) (ds : List ErrorDetail) (
 end parametric
 
 /-- The `TYPE_URL` dispatch of `check_error_details[_vec]` sends each kind's URL to that kind, so
-no two kinds can be confused. -/
+no two kinds can be confused. (Transcription lemma: it holds by unfolding the model's definition, so it pins the model's shape for the correspondence run — its assurance about tonic is the tie, not this proof.) -/
 theorem C20_url_dispatch (k : Kind) : kindOfUrl (typeUrl k) = some k := kindOfUrl_typeUrl k
 
 /-- Decode side, any `Prost`, any bytes: a failed check is an empty result of the corresponding
-`get_*`, a successful one is that result — the model has no third outcome. -/
+`get_*`, a successful one is that result — the model has no third outcome. (Transcription lemma: it holds by unfolding the model's definition, so it pins the model's shape for the correspondence run — its assurance about tonic is the tie, not this proof.) -/
 theorem C20_decode_total (P : Prost) (b : Bytes) :
     (checkVec P b = none ∧ getVec P b = [] ∨ ∃ ds, checkVec P b = some ds ∧ getVec P b = ds) ∧
     (checkSet P b = none ∧ getSet P b = {} ∨ ∃ s, checkSet P b = some s ∧ getSet P b = s) := by
